@@ -6,7 +6,18 @@ order:   specs/Threads.tla (interleavings of recorded thread programs) - see ver
 from verif.checks import mdibcommon, mirrorcommon
 
 
+ORDER_QUICK = [('W_metric_m1', 'W_metric_m2'), ('W_metric_m1', 'W_comp_vmd', 'W_descr_m1')]
+ORDER_THOROUGH = ORDER_QUICK + [('W_metric_m1', 'W_metric_m2', 'W_comp_vmd', 'W_ctx'), ('W_descr_m1', 'W_descr_ch', 'W_ctx'),
+                                ('W_metric_m1', 'W_metric_m1', 'W_metric_m2')]
+
+
 def check(run, replay_path=None):
     mdibcommon.model_check(run)
-    variants = [dict(), dict(async_mgr=True)]
-    mirrorcommon.run_family(run, 'C04', run.pick(120, 3000), variants, seed_offset=7)
+    variants = [dict(periodic_reports_interval=100000), dict(async_mgr=True, periodic_reports_interval=100000)]
+    mirrorcommon.run_family(run, 'C04', run.pick(100, 3000), variants, seed_offset=7)
+    # delivery order under concurrently writing threads (all interleavings of the recorded thread programs)
+    from verif.checks.c07 import run_scenarios
+    scenarios = run.pick(ORDER_QUICK, ORDER_THOROUGH)
+    run_scenarios(run, scenarios, run.pick(80, 1500), {'wire_in_version_order'}, prefix='c04')
+    run.assumptions += ['order: one subscriber endpoint with several subscriptions; wire order observed at the loop-back client',
+                        'periodic store inspected through PeriodicReportsHandler lists (last 3 entries per kind)']
